@@ -27,12 +27,39 @@ def run(model, rep, tier):
 
 # ------------------------------------------------------------------------------------------
 
-def _stderr_prints(fi):
-    """print(...) calls of the writer that go to the saved original stderr, in source order"""
+_INLINED = {}
+
+
+def writer_ast(ctx, fi):
+    """the writer with its statement-level helpers inlined (one AST per model)"""
+    from .common import inlined
+    key = (id(ctx.model), fi.qualname)
+    if key not in _INLINED:
+        _INLINED[key] = inlined(ctx, fi)
+    return _INLINED[key]
+
+
+def _stderr_prints(fi, ctx=None):
+    """print(...) calls of the writer (helpers inlined), in execution order of the body"""
+    node = writer_ast(ctx, fi) if ctx is not None else fi.node
     out = []
-    for c in sorted(own_calls(fi.node), key=lambda c: (c.lineno, c.col_offset)):
-        if dotted(c.func) == 'print':
-            out.append(c)
+
+    def walk(stmts):
+        for st in stmts:
+            for c in calls_in(st) if not isinstance(st, (ast.For, ast.While, ast.If, ast.Try, ast.With)) else []:
+                if dotted(c.func) == 'print':
+                    out.append(c)
+            if isinstance(st, (ast.For, ast.While)):
+                for c in calls_in(st.iter if isinstance(st, ast.For) else st.test):
+                    if dotted(c.func) == 'print':
+                        out.append(c)
+            for fld in ('body', 'orelse', 'finalbody'):
+                sub = getattr(st, fld, None)
+                if isinstance(sub, list) and sub and isinstance(sub[0], ast.stmt):
+                    walk(sub)
+            for hd in getattr(st, 'handlers', []) or []:
+                walk(hd.body)
+    walk(node.body)
     return out
 
 
@@ -170,7 +197,7 @@ def r1_r2_wire(ctx, rep, R1='C07.R1', R2='C07.R2'):
              'entry')
     m = ctx.model
     w = m.func(WRITER)
-    prints = _stderr_prints(w)
+    prints = _stderr_prints(w, ctx)
     hdr = prints[0] if prints else None
     wfields = [_classify_writer_field(a) for a in hdr.args] if hdr is not None else []
     r = m.func(READER)
@@ -202,12 +229,14 @@ def r1_r2_wire(ctx, rep, R1='C07.R1', R2='C07.R2'):
               func=rt.qualname, where=ctx.where(rt, rt.node))
     # body order, writer
     worder = []
-    for st in ast.walk(w.node):
+    wnode = writer_ast(ctx, w)
+    order_key = {id(c): i for i, c in enumerate(prints)}
+    for st in ast.walk(wnode):
         if isinstance(st, ast.For):
             d = dotted(st.iter) or ''
             pr = [c for c in ast.walk(st) if isinstance(c, ast.Call) and dotted(c.func) == 'print']
             if pr:
-                worder.append((st.lineno, d.split('.')[-1], len(pr)))
+                worder.append((min(order_key.get(id(c), 10 ** 6) for c in pr), d.split('.')[-1], len(pr)))
     worder.sort()
     rorder = [acc for lp, counter, acc, nexts, apps, decs in
               sorted(loops, key=lambda x: x.lineno)]
@@ -324,6 +353,25 @@ def removed_breaks(e):
     return frozenset(removed) if found else frozenset()
 
 
+def _resolve_nearest(expr, at):
+    """replace a plain local by the value of the nearest preceding assignment in the same block"""
+    if not isinstance(expr, ast.Name):
+        return expr
+    st = at
+    while getattr(st, '_parent', None) is not None and not isinstance(st, ast.stmt):
+        st = st._parent
+    par = getattr(st, '_parent', None)
+    while par is not None:
+        for fld in ('body', 'orelse', 'finalbody'):
+            sub = getattr(par, fld, None)
+            if isinstance(sub, list) and st in sub:
+                for prev in reversed(sub[:sub.index(st)]):
+                    if isinstance(prev, ast.Assign) and any(is_name(t, expr.id) for t in prev.targets):
+                        return prev.value
+        st, par = par, getattr(par, '_parent', None)
+    return expr
+
+
 def reader_breaks(ctx, fi):
     """characters at which the reader breaks the child's stderr into lines"""
     out = None
@@ -347,13 +395,13 @@ def r3_line_discipline(ctx, rep, R='C07.R3'):
     if rb is None:
         rep.undecide(R, 'reader split', 'cannot determine how the parent splits the child\'s stderr')
         return
-    prints = _stderr_prints(w)[1:]
+    prints = _stderr_prints(w, ctx)[1:]
     n = 0
     for c in prints:
         if not c.args:
             continue
         n += 1
-        rem = removed_breaks(c.args[0])
+        rem = removed_breaks(_resolve_nearest(c.args[0], c))
         if rem is None:
             rep.undecide(R, norm(c), 'unrecognised sanitising construct')
             continue
@@ -499,16 +547,22 @@ def r5_channel_separation(ctx, rep, R='C07.R5'):
               key='child:save-before-swap', func=ws.qualname, where=ctx.where(ws, ws.node))
     w = m.func(WRITER)
     gw = ctx.cfg(w)
-    prints = _stderr_prints(w)
-    files_ok = bool(prints) and all(dotted(kw(c, 'file')) == 'self.%s' % saved_attr for c in prints)
+    from .common import alias_dotted
+    prints = _stderr_prints(w, ctx)
+    wnode = writer_ast(ctx, w)
+    files_ok = bool(prints) and all(kw(c, 'file') is not None and
+                                    alias_dotted(wnode, kw(c, 'file')) == 'self.%s' % saved_attr
+                                    for c in prints)
     rep.check(files_ok, R, 'child: every report line goes to self.%s (%d print calls)'
               % (saved_attr, len(prints)), 'a report line is printed to %s'
               % [norm(kw(c, 'file')) if kw(c, 'file') is not None else 'sys.stdout' for c in prints],
               key='child:file', func=w.qualname, where=ctx.where(w, w.node))
+    from sa.cfg import build_cfg
+    gw = build_cfg(wnode, ctx.hier, None, w.module, name=w.qualname)
     closes = nodes_calling(gw, lambda c: m.resolve_dotted(w.module, dotted(c.func)) == 'sys.stdout.close')
     pn = nodes_calling(gw, lambda c: c in prints)
     domw = gw.dominators()
-    rep.check(bool(closes) and all(closes[0] in domw[p] for p in pn), R,
+    rep.check(bool(closes) and bool(pn) and all(closes[0] in domw[p] for p in pn), R,
               'child: sys.stdout.close() before the first report line',
               'stdout is not closed before the report is written', key='child:close',
               func=w.qualname, where=ctx.where(w, w.node))
